@@ -15,7 +15,23 @@ EXPLANATION = (
 ASSUMPTIONS = ["rustc accepts the tree", "RoaringBitmap set algebra (difference/intersection) is correct"]
 
 
+C03_CORES = {"dfa::do_minimize", "dfa::find_bounds", "dfa::keep_only_states_with_input_transitions", "dfa::eliminate_nonaccepting_states_without_output_transitions",
+             "dfa::renumber_states", "dfa::DFA::make_transitions_image", "dfa::hashmap_transitions_from_vec"}
+
+
+def core_skips(repo, res):
+    """SKIPS over the minimiser: every condition under which a splitter, a symbol, a block or a transition is skipped, every loop
+    exit and every guarded update of partition / worklist is one of the rows confirmed by reading against Hopcroft's algorithm
+    (tables/skips.toml).  The refinement loop's *correctness* is not decided by this; what is decided is that its control
+    skeleton is the reviewed one -- e.g. that all symbols of a splitter are processed even when the splitter itself was split."""
+    from vlib import rules_skips as SK, tables
+
+    n = SK.skips_rule(repo, res, tables.load("skips")["row"], only=C03_CORES)
+    res.floor("SKIPS", n, 18)
+
+
 def run(repo, res, tier):
+    core_skips(repo, res)
     fq = "dfa::do_minimize"
     fn = repo.fn(fq)
     if fn is None:
